@@ -7,7 +7,9 @@ csb     atomica.optimization.constrain_sum_bounded(x, s, lb, ub) on explicit vec
         the constraints comes back unchanged; an exception is the permitted signal; inputs are not mutated
         (TotalSpendConstraint reuses x for the penalty, SpendingPackageAdjustment passes its own min/max arrays).
 tsc     Optimization + TotalSpendConstraint over plain / paired / package adjustments without any simulation:
-        get_initialization -> get_hard_constraints -> update_instructions(x) -> constrain_instructions.
+        get_initialization -> get_hard_constraints -> update_instructions(x) -> constrain_instructions (optimize()'s own
+        sequence), run 1..3 times on the SAME objects with scaled / different default spending: every use must follow
+        the instructions and progset it was given (also after an earlier use failed or was unresolvable).
         The expected constrained years, totals (given or default budget, times budget factor), resolved bounds and
         the UnresolvableConstraint / InvalidInitialConditions verdicts are computed here from the case data alone.
 pkg     SpendingPackageAdjustment.update_instructions for x inside the adjustables' own limits: member shares in
@@ -25,7 +27,7 @@ RULE = (
     "cases = kind csb (explicit proposal/total/bound vectors, n 1..10, scale 1e-2..1e7, bounds 0/finite/inf/equal, totals interior/at-min/at-max/"
     "infeasible by 0.5..1e-9 relative/zero, proposals random/all-zero/single/feasible/rescaled-feasible/feasible-plus-bump/at-bounds), kind tsc "
     "(Optimization with plain/paired/package adjustments on 10 programs, 1..3 years each, abs/rel bounds, default or explicit totals, scalar or "
-    "per-year budget factor, 1..2 proposals inside the adjustables' limits: uniform/initial/at-lower/at-upper/water-filled to total*(1+eps)/single non-zero/package totals at their minimum; explicit constraint years in arbitrary order with per-year totals and factors), kind pkg "
+    "per-year budget factor, 1..2 proposals inside the adjustables' limits: uniform/initial/at-lower/at-upper/water-filled to total*(1+eps)/single non-zero/package totals at their minimum; explicit constraint years in arbitrary order with per-year totals and factors; 0..2 further uses of the same Optimization objects with scaled or redrawn default spending), kind pkg "
     "(2..6 members, fixed or free proportions, fixed or adjustable total, 1..3 proposals), kind paired (two gradients per case); non-trivial = the problem is infeasible "
     "(exception or UnresolvableConstraint expected) or the proposal needed a projection (rescaled proposal breaks a bound / allocation changed by the "
     "constraint) / package fractions needed rescaling / non-zero paired transfer; distinct = distinct case hash"
@@ -39,8 +41,8 @@ ASSUMPTIONS = [
     "any exception counts as the permitted signal when the problem is infeasible, the total is 0 or a bound is NaN (0*inf relative bound); for a feasible problem only FailedConstraint/AssertionError do",
     "ProgramSet is built programmatically (ProgramSet.new on the tb_simple framework/data) with constant default spending; no simulation is run",
 ]
-BUDGET = {"quick": 24000, "thorough": 1600000}
-TIME_CAP = {"quick": 50, "thorough": 1150}
+BUDGET = {"quick": 16000, "thorough": 1600000}
+TIME_CAP = {"quick": 75, "thorough": 1150}
 
 INF = math.inf
 NPROG = 10
@@ -326,6 +328,14 @@ def tsc_cases(draw):
         u = draw(st.lists(unit, min_size=nx, max_size=nx)) if mode in ("u", "near", "zero-single", "pkg-low") else [0.5] * nx
         props.append({"mode": mode, "u": u, "eps": draw(eps_s) * draw(st.sampled_from([1.0, -1.0])) if mode == "near" else 0.0, "k": draw(st.integers(0, max(0, nx - 1))) if mode == "zero-single" else 0})
     case["props"] = props
+    # later uses of the very same adjustment / constraint / Optimization objects with other spending (budget sweep, other scenario)
+    reuse = []
+    for _ in range(draw(st.sampled_from([0, 0, 1, 1, 2]))):
+        if draw(st.integers(0, 2)) > 0:
+            reuse.append({"mode": "scale", "factor": draw(st.one_of(st.sampled_from([2.0, 0.5, 3.0, 1.0, 1.5, 0.0]), st.floats(min_value=0.1, max_value=4.0)))})
+        else:
+            reuse.append({"mode": "respend", "spend": [scale * u for u in draw(st.lists(unit, min_size=NPROG, max_size=NPROG))]})
+    case["reuse"] = reuse
     return case
 
 
@@ -597,15 +607,17 @@ def _check_csb(case):
 # --------------------------------------------------------------------------- kind tsc
 
 
+def _use_spend(case, reuse):
+    """default spending of a later use of the same objects"""
+    if reuse["mode"] == "scale":
+        return [float(reuse["factor"]) * v for v in case["spend"]]
+    return [float(v) for v in reuse["spend"]]
+
+
 def _check_tsc(case):
     at, pg = _env()
-    import sciris as sc
-    from atomica.optimization import FailedConstraint, UnresolvableConstraint, InvalidInitialConditions
 
-    m = _model(case)
-    m["_case_adj"] = case["adj"]
-    scale = case["scale"]
-    labels = ["kind:tsc", "adjustments:%d" % len(case["adj"]), "alloc-from:" + case["src"], "constrained-years:%d" % len(m["totals"])]
+    labels = ["kind:tsc", "adjustments:%d" % len(case["adj"]), "alloc-from:" + case["src"]]
     types = sorted(set(a["type"] for a in case["adj"]))
     labels += ["has:" + t for t in types] + (["mix:" + "+".join(types)] if len(types) > 1 else [])
     if any(a["type"] == "plain" and a["limit"] == "rel" for a in case["adj"]):
@@ -620,21 +632,49 @@ def _check_tsc(case):
     labels.append("years:explicit" if con["t"] is not None else "years:all-adjusted")
     if con["t"] is not None and list(con["t"]) != sorted(con["t"]):
         labels.append("years:not-ascending" + ("+per-year-values" if isinstance(con["bf"], list) or con["total"] is not None else ""))
-    if m["nanbound"]:
-        labels.append("nan-bound(0*inf relative)")
-    desc = "case %r" % (case,)
 
-    # ---- construction
+    # ---- construction: ONE set of adjustment / constraint / Optimization objects for every use below
     try:
         adjustments = [_make_adjustment(at, a) for a in case["adj"]]
     except AssertionError as e:
         if any(a["type"] == "package" for a in case["adj"]):
             return {"nontrivial": False, "labels": labels + ["package-constructor-rejected"]}
-        raise Violation(ID, "tsc/constructor-rejected-valid-input", "%r; %s" % (e, desc))
+        raise Violation(ID, "tsc/constructor-rejected-valid-input", "%r; case %r" % (e, case))
     constraint = at.TotalSpendConstraint(total_spend=con["total"], t=con["t"], budget_factor=con["bf"])
     opt = at.Optimization("c14", adjustments=adjustments, measurables=[at.MinimizeMeasurable(NAMES[0], 2020)], constraints=constraint)
-    inst = _instructions(case)
 
+    # ---- uses: the first with the case's spending, later ones with scaled / different spending in the same objects,
+    # each following optimize()'s own sequence get_initialization -> get_hard_constraints -> update -> constrain
+    spends = [case["spend"]] + [_use_spend(case, r) for r in case.get("reuse", [])]
+    labels.append("uses:%d" % len(spends))
+    nontrivial = False
+    previous = None
+    for ui, spend in enumerate(spends):
+        ucase = dict(case, spend=spend)
+        desc = "use %d of the same Optimization objects (default spending %r, earlier uses %r); case %r" % (ui + 1, spend, spends[:ui], case)
+        nt, outcome = _tsc_use(ucase, opt, labels, desc)
+        nontrivial = nontrivial or nt
+        if ui > 0:
+            labels.append("reuse-after:" + previous + "->" + outcome)
+            if spend != spends[ui - 1] and any(a["type"] == "plain" and any(v is None for v in a["initial"]) for a in case["adj"]):
+                nontrivial = nontrivial or outcome == "constrained"
+        previous = outcome
+    return {"nontrivial": nontrivial, "labels": labels}
+
+
+def _tsc_use(case, opt, labels, desc):
+    """one use of the (possibly already used) Optimization with the instructions / progset spending of `case`; returns (nontrivial, outcome)"""
+    at, pg = _env()
+    import sciris as sc
+    from atomica.optimization import FailedConstraint, UnresolvableConstraint, InvalidInitialConditions
+
+    m = _model(case)
+    m["_case_adj"] = case["adj"]
+    scale = case["scale"]
+    labels.append("constrained-years:%d" % len(m["totals"]))
+    if m["nanbound"]:
+        labels.append("nan-bound(0*inf relative)")
+    inst = _instructions(case)
     # ---- initialisation: impossible from the outset -> InvalidInitialConditions
     exp_invalid = any((a["v0"] < a["lo"] or a["v0"] > a["hi"]) for a in m["adjustables"])
     try:
@@ -645,7 +685,8 @@ def _check_tsc(case):
     if got_invalid != exp_invalid:
         raise Violation(ID, "tsc/invalid-initial-conditions-verdict", "InvalidInitialConditions raised=%s expected=%s adjustables=%r; %s" % (got_invalid, exp_invalid, m["adjustables"], desc))
     if got_invalid:
-        return {"nontrivial": True, "labels": labels + ["invalid-initial-conditions"]}
+        labels.append("invalid-initial-conditions")
+        return True, "invalid-initial"
     for i, a in enumerate(m["adjustables"]):
         for nm, got, exp in (("x0", x0[i], a["v0"]), ("xmin", xmin[i], a["lo"]), ("xmax", xmax[i], a["hi"])):
             if not (got == exp or (math.isnan(exp) and math.isnan(got)) or abs(got - exp) <= 1e-9 * max(1.0, abs(exp))):
@@ -670,13 +711,15 @@ def _check_tsc(case):
         got_unres = True
     except (FailedConstraint, AssertionError) as e:
         # applying the initial values already failed (e.g. package proportions whose feasible set is a single point): reported before optimization starts
-        return {"nontrivial": exp_unres, "labels": labels + ["setup-signal:" + type(e).__name__, "signalled-though-feasible(setup)"]}
+        labels.extend(["setup-signal:" + type(e).__name__, "signalled-though-feasible(setup)"])
+        return exp_unres, "setup-signal"
     if borderline:
         labels.append("feasibility-borderline(rounding)")
     if got_unres != exp_unres and not borderline and not m["nanbound"]:
         raise Violation(ID, "tsc/unresolvable-verdict", "UnresolvableConstraint raised=%s expected=%s; totals=%r entries=%r; %s" % (got_unres, exp_unres, m["totals"], {t: [(e["key"], e["lo"], e["hi"]) for e in es] for t, es in m["entries"].items()}, desc))
     if got_unres:
-        return {"nontrivial": True, "labels": labels + ["unresolvable-reported"]}
+        labels.append("unresolvable-reported")
+        return True, "unresolvable"
     h = hc[0]
     got_years = sorted(float(t) for t in h["initial_total_spend"])
     if got_years != sorted(m["totals"]):
@@ -698,6 +741,7 @@ def _check_tsc(case):
 
     # ---- proposals
     nontrivial = False
+    nlab = len(labels)
     adjusted = set()
     for es in m["entries"].values():
         for e in es:
@@ -793,7 +837,7 @@ def _check_tsc(case):
         labels.append("proposal:already-satisfied" if satisfied else ("proposal:projected" if changed else "proposal:unchanged"))
         if changed and not satisfied:
             nontrivial = True
-    return {"nontrivial": nontrivial, "labels": labels}
+    return nontrivial, ("constrained" if "constrained" in labels[nlab:] else "signalled")
 
 
 # --------------------------------------------------------------------------- kind pkg
